@@ -372,4 +372,142 @@ example : Mir.Gen.hierarchy._lca [[(0, 4)], [(0, 2), (2, 4)]] 1 = .ok [[2, 2, 1,
     ∧ Mir.Gen.hierarchy._hierarchy_bounds [[(0, 4)], [(1/2, 2), (2, 9/2)]] = .ok (0, 9/2) := by
   refine ⟨by decide +kernel, by decide +kernel, by decide +kernel⟩
 
+/-! ### `_meet` -/
+
+/-- the translated inner loop of `_meet` over index pairs that are all in range: one `meetStep` per pair -/
+theorem _meet_loop2_ok (level n : Nat) (frames : List (Int × Int)) :
+    ∀ (pairs : List (Nat × Nat)) (m : Mat), m.length = n →
+      (∀ ij ∈ pairs, ij.1 < frames.length ∧ ij.2 < frames.length) →
+      Mir.Gen.hierarchy._meet_loop2 level frames pairs m
+        = .ok (pairs.foldl (fun m ij => meetStep level m
+            ((segAt (frames.map fun f => (normIdx f.1 n, normIdx f.2 n)) ij.1, ij.1),
+             (segAt (frames.map fun f => (normIdx f.1 n, normIdx f.2 n)) ij.2, ij.2))) m) := by
+  intro pairs
+  induction pairs with
+  | nil => intro m _ _; rfl
+  | cons x t ih =>
+    obtain ⟨i, j⟩ := x
+    intro m hm hall
+    obtain ⟨hi, hj⟩ := hall (i, j) List.mem_cons_self
+    unfold Mir.Gen.hierarchy._meet_loop2
+    have si : segAt (frames.map fun f => (normIdx f.1 n, normIdx f.2 n)) i = (normIdx frames[i].1 n, normIdx frames[i].2 n) := by
+      simp [segAt, hi]
+    have sj : segAt (frames.map fun f => (normIdx f.1 n, normIdx f.2 n)) j = (normIdx frames[j].1 n, normIdx frames[j].2 n) := by
+      simp [segAt, hj]
+    simp only [getItem_lt _ _ hi, getItem_lt _ _ hj, ok_bind, PyH.setBlock, hm, length_setBlock, List.foldl_cons]
+    have hstep : meetStep level m
+        ((segAt (frames.map fun f => (normIdx f.1 n, normIdx f.2 n)) i, i),
+         (segAt (frames.map fun f => (normIdx f.1 n, normIdx f.2 n)) j, j))
+        = (if i ≠ j then
+            Hierarchy.setBlock (Hierarchy.setBlock m (normIdx frames[i].1 n) (normIdx frames[i].2 n)
+              (normIdx frames[j].1 n) (normIdx frames[j].2 n) level)
+              (normIdx frames[j].1 n) (normIdx frames[j].2 n) (normIdx frames[i].1 n) (normIdx frames[i].2 n) level
+           else Hierarchy.setBlock m (normIdx frames[i].1 n) (normIdx frames[i].2 n)
+              (normIdx frames[j].1 n) (normIdx frames[j].2 n) level) := by
+      simp only [meetStep, si, sj]
+    rw [hstep]
+    by_cases hij : i = j
+    · subst hij
+      simp only [ne_eq, not_true_eq_false, decide_false, Bool.false_eq_true, if_false, pure_eq_ok, ok_bind]
+      exact ih _ (by rw [length_setBlock, hm]) (fun ij h => hall ij (List.mem_cons_of_mem _ h))
+    · simp only [ne_eq, hij, not_false_eq_true, decide_true, if_true, pure_eq_ok, ok_bind]
+      exact ih _ (by rw [length_setBlock, length_setBlock, hm]) (fun ij h => hall ij (List.mem_cons_of_mem _ h))
+
+/-- a label index past the intervals: `int_frames[seg]` raises `IndexError`, wherever in the loop it comes -/
+theorem _meet_loop2_error (level : Nat) (frames : List (Int × Int)) :
+    ∀ (pairs : List (Nat × Nat)) (m : Mat), (∃ ij ∈ pairs, ¬ (ij.1 < frames.length ∧ ij.2 < frames.length)) →
+      Mir.Gen.hierarchy._meet_loop2 level frames pairs m = .error .indexError := by
+  intro pairs
+  induction pairs with
+  | nil => rintro m ⟨ij, h, _⟩; cases h
+  | cons x t ih =>
+    obtain ⟨i, j⟩ := x
+    intro m hex
+    unfold Mir.Gen.hierarchy._meet_loop2
+    by_cases hi : i < frames.length
+    · by_cases hj : j < frames.length
+      · have : ∃ ij ∈ t, ¬ (ij.1 < frames.length ∧ ij.2 < frames.length) := by
+          obtain ⟨ij, hm, hbad⟩ := hex
+          rcases List.mem_cons.1 hm with rfl | hm
+          · exact absurd ⟨hi, hj⟩ hbad
+          · exact ⟨ij, hm, hbad⟩
+        simp only [getItem_lt _ _ hi, getItem_lt _ _ hj, ok_bind]
+        split <;> simp only [pure_eq_ok, ok_bind] <;> exact ih _ this
+      · simp only [getItem_lt _ _ hi, getItem_ge _ _ (Nat.le_of_not_lt hj), ok_bind, error_bind]
+    · simp only [getItem_ge _ _ (Nat.le_of_not_lt hi), error_bind]
+
+/-- the translated outer loop of `_meet` = the model's `meetLevels` (labels longer than the intervals: `IndexError`) -/
+theorem _meet_loop1_eq (fs : Rat) (hfs : 0 < fs) (n : Nat) :
+    ∀ (xs : List ((Ivals × List String) × Nat)) (m : Mat), m.length = n →
+      Mir.Gen.hierarchy._meet_loop1 fs xs m = meetLevels fs n m xs := by
+  intro xs
+  induction xs with
+  | nil => intro m _; rfl
+  | cons x t ih =>
+    obtain ⟨⟨ivs, labs⟩, level⟩ := x
+    intro m hm
+    unfold Mir.Gen.hierarchy._meet_loop1 meetLevels meetLevel
+    simp only [Mir.Gen.hierarchy._round_nd, pure_eq_ok, ok_bind, frames_of_round ivs fs hfs, labelKeys]
+    by_cases hlen : ivs.length < labs.length
+    · rw [if_pos hlen, _meet_loop2_error]
+      · rfl
+      · refine ⟨(ivs.length, ivs.length), mem_triuAgree_diag _ _ (by simpa using hlen), ?_⟩
+        simp
+    · rw [if_neg hlen]
+      have hle : (labs.map String.toLower).length ≤ (ivs.map (frameSlice fs n)).length := by
+        simp only [List.length_map]; omega
+      rw [_meet_loop2_ok level n _ _ m hm (by
+        intro ij hij
+        have := mem_triuAgree (i := ij.1) (j := ij.2) hij
+        simp only [List.length_map] at this ⊢
+        omega)]
+      simp only [ok_bind, agreePairs_eq_triuAgree _ _ hle, List.foldl_map, List.map_map]
+      have hnf : (List.map ((fun f : Int × Int => (normIdx f.1 n, normIdx f.2 n)) ∘ fun p : Rat × Rat => (frameOf p.1 fs, frameOf p.2 fs)) ivs)
+          = List.map (frameSlice fs n) ivs := by
+        apply List.map_congr_left; intro p _; rfl
+      rw [hnf]
+      exact ih _ (by rw [length_foldl_meetStep, hm])
+
+/-- **`_meet` as translated = the hand model** (`meet`) for every hierarchy, all label lists (fewer label levels, shorter or
+    longer label lists: the same `IndexError`) and every `frame_size > 0` -/
+theorem _meet_eq_model (h : Hier) (labels : List (List String)) (fs : Rat) (hfs : 0 < fs) :
+    Mir.Gen.hierarchy._meet h labels fs = meet h labels fs := by
+  unfold Mir.Gen.hierarchy._meet meet numFrames
+  rw [_hierarchy_bounds_eq_model]
+  cases hb : bounds h with
+  | error e => rfl
+  | ok b =>
+    obtain ⟨lo, hi⟩ := b
+    have hle : lo ≤ hi := by
+      unfold bounds at hb
+      cases hmin : (boundaries h).min? with
+      | none => rw [hmin] at hb; cases hb
+      | some a =>
+        cases hmax : (boundaries h).max? with
+        | none => rw [hmin, hmax] at hb; cases hb
+        | some b =>
+          rw [hmin, hmax] at hb
+          injection hb with hb; injection hb with h1 h2
+          subst h1; subst h2
+          exact min?_le_max? hmin hmax
+    have hd : 0 ≤ frameOf hi fs - frameOf lo fs := by
+      have : frameOf lo fs ≤ frameOf hi fs := by
+        unfold frameOf
+        exact Rat.floor_monotone (div_le_div_of_nonneg_right hle (le_of_lt hfs))
+      omega
+    simp only [ok_bind, Mir.Gen.hierarchy._round, pure_eq_ok, round_sub_div hi lo fs hfs, lilZeros,
+      if_neg (not_lt.2 hd)]
+    rw [_meet_loop1_eq fs hfs (frameOf hi fs - frameOf lo fs).toNat _ _ (length_zeros _)]
+
+/-- the C17 statement on the translated `_meet`: every entry is the deepest level at which the two frames carry the same label -/
+theorem gen_meet_spec (h : Hier) (labels : List (List String)) (fs : Rat) (hfs : 0 < fs) (m : Mat) (n : Nat)
+    (hm : Mir.Gen.hierarchy._meet h labels fs = .ok m) (hn : numFrames h fs = .ok n) (i j : Nat) (hi : i < n) (hj : j < n) :
+    entry m i j = some (meetSpec h labels fs n i j) :=
+  Mir.C17.meet_spec h labels fs m n (by rw [← _meet_eq_model h labels fs hfs]; exact hm) hn i j hi hj
+
+example : Mir.Gen.hierarchy._meet [[(0, 3)], [(0, 1), (1, 2), (2, 3)]] [["x"], ["a", "b", "A"]] 1
+      = .ok [[2, 1, 2], [1, 2, 1], [2, 1, 2]]
+    ∧ Mir.Gen.hierarchy._meet [[(0, 2)]] [["a", "b"]] 1 = .error .indexError := by
+  refine ⟨by decide +kernel, by decide +kernel⟩
+
 end Mir.C17.Gen
